@@ -122,6 +122,19 @@ def run_real(desc):
                 assert a.active is False
             agents[a.id] = a
             blockers.append((r - vr, c - vc, bool(bl), bool(ac)))
+        # a history: the same viewer object has asked before, with the same range, when every other agent on the
+        # grid was blocking (flags switched through the public setter and back); the mask depends on the current
+        # layout only
+        flags = [(a, a.blocking) for a in agents.values() if a is not viewer]
+        try:
+            for a, _ in flags:
+                a.blocking = True
+            gu.create_grid_and_mask(viewer, grid, R, agents)
+        except Exception:  # noqa: BLE001
+            pass
+        finally:
+            for a, b in flags:
+                a.blocking = b
         try:
             _, mask = gu.create_grid_and_mask(viewer, grid, R, agents)
             m = np.asarray(mask)
@@ -339,6 +352,15 @@ class MaskProp(core.Prop):
             k = rng.randint(1, 5)
             offs = [(rng.randint(-R - pad, R + pad), rng.randint(-R - pad, R + pad)) for _ in range(k)]
             flags = [(rng.random() < 0.6, rng.random() < 0.7) for _ in range(k)]
+            if rng.random() < 0.35:
+                # a blocking agent that died on a cell (stale position) and another, living blocker standing on that
+                # very cell, listed before or after it
+                j = rng.randrange(k)
+                flags[j] = (True, True)
+                at = rng.randrange(k + 1)
+                offs.insert(at, offs[j])
+                flags.insert(at, (True, False))
+                k += 1
             vb = rng.random() < 0.3
             yield from self._with_images(R, offs, flags, "mix", pad, vb)
             d0 = centred(R, offs, flags, pad, vb)
